@@ -525,11 +525,11 @@ Section Content.
       | Some sg => inr (ch, srupdate p sg loads, R)
       end
     | SApply _ => inr acc
-    | SCall line eline g _ =>
+    | SCall line eline g args =>
       match clines (firstn (Nat.max (S line) eline) lines) with
       | inl e => inl e
       | inr ph =>
-        match scallee_ctx_plain hv g with
+        match scallee_ctx_plain hv g (List.length args) with
         | inl e => inl (ErrArg e)
         | inr named =>
           match cana g (named, Some (Content ph a loads ch exts vs)) R with
@@ -542,7 +542,7 @@ Section Content.
       match clines (firstn (Nat.max (S line) line) lines) with
       | inl e => inl e
       | inr ph =>
-        match scallee_ctx_plain hv g with
+        match scallee_ctx_plain hv g 0 with
         | inl e => inl (ErrArg e)
         | inr named =>
           match cana g (named, Some (Content ph a loads ch exts vs)) R with
@@ -738,12 +738,12 @@ Section Content.
 
   Lemma sana_step_SCall : forall line eline g args lines isig inters loads R,
     sana_step hv hl (SCall line eline g args) lines isig (inters, loads, R) =
-    scall_g g (scall_ctx hl lines line eline isig inters loads) (scallee_ctx_plain hv g)
+    scall_g g (scall_ctx hl lines line eline isig inters loads) (scallee_ctx_plain hv g (List.length args))
             (fun t R' => (inters ++ [t], loads, R')) R.
   Proof. reflexivity. Qed.
   Lemma sana_step_SRef : forall line g ex lines isig inters loads R,
     sana_step hv hl (SRef line g ex) lines isig (inters, loads, R) =
-    scall_g g (scall_ctx hl lines line line isig inters loads) (scallee_ctx_plain hv g)
+    scall_g g (scall_ctx hl lines line line isig inters loads) (scallee_ctx_plain hv g 0)
             (fun t R' => (inters ++ [t], loads, R')) R.
   Proof. reflexivity. Qed.
   Lemma sana_step_SApply : forall g lines isig acc, sana_step hv hl (SApply g) lines isig acc = inr acc.
@@ -841,12 +841,12 @@ Section Content.
   Lemma cana_step_SCall : forall line eline g args lines a exts vs ch loads R,
     cana_step (SCall line eline g args) lines a exts vs (ch, loads, R) =
     ccall_g g (clines (firstn (Nat.max (S line) eline) lines)) (fun ph => Content ph a loads ch exts vs)
-            (scallee_ctx_plain hv g) (fun c R' => (ch ++ [c], loads, R')) R.
+            (scallee_ctx_plain hv g (List.length args)) (fun c R' => (ch ++ [c], loads, R')) R.
   Proof. reflexivity. Qed.
   Lemma cana_step_SRef : forall line g ex lines a exts vs ch loads R,
     cana_step (SRef line g ex) lines a exts vs (ch, loads, R) =
     ccall_g g (clines (firstn (Nat.max (S line) line) lines)) (fun ph => Content ph a loads ch exts vs)
-            (scallee_ctx_plain hv g) (fun c R' => (ch ++ [c], loads, R')) R.
+            (scallee_ctx_plain hv g 0) (fun c R' => (ch ++ [c], loads, R')) R.
   Proof. reflexivity. Qed.
   Lemma cana_step_SApply : forall g lines a exts vs acc, cana_step (SApply g) lines a exts vs acc = inr acc.
   Proof. intros g lines a exts vs [[ch loads] R]. reflexivity. Qed.
@@ -1226,8 +1226,8 @@ Section Faithful.
     cbn [arg_ctx_ast sarg_ctx_ast]. rewrite IH. reflexivity.
   Qed.
 
-  Lemma callee_ctx_plain_render : forall g, callee_ctx_plain H mx g = scallee_ctx_plain hv0 g.
-  Proof. intros g. apply arg_ctx_ast_render. Qed.
+  Lemma callee_ctx_plain_render : forall g n, callee_ctx_plain H mx g n = scallee_ctx_plain hv0 g n.
+  Proof. intros g n. unfold callee_ctx_plain, scallee_ctx_plain. rewrite arg_ctx_ast_render. reflexivity. Qed.
 
   Lemma input_sig_render : forall ap ep vp,
     match X H (rp ap ++ rp ep ++ rp vp) with Some s => s | None => empty_list_hash H end =
@@ -1362,12 +1362,12 @@ Section Faithful.
 
   Lemma ana_step_SCall' : forall line eline g args lines isig inters loads R,
     ana_step H mx (SCall line eline g args) lines isig (inters, loads, R) =
-    call_g' g (call_ctx H mx lines line eline isig inters loads) (callee_ctx_plain H mx g)
+    call_g' g (call_ctx H mx lines line eline isig inters loads) (callee_ctx_plain H mx g (List.length args))
             (fun t R' => (inters ++ [t], loads, R')) R.
   Proof. reflexivity. Qed.
   Lemma ana_step_SRef' : forall line g ex lines isig inters loads R,
     ana_step H mx (SRef line g ex) lines isig (inters, loads, R) =
-    call_g' g (call_ctx H mx lines line line isig inters loads) (callee_ctx_plain H mx g)
+    call_g' g (call_ctx H mx lines line line isig inters loads) (callee_ctx_plain H mx g 0)
             (fun t R' => (inters ++ [t], loads, R')) R.
   Proof. reflexivity. Qed.
   Lemma ana_step_SApply' : forall g lines isig acc, ana_step H mx (SApply g) lines isig acc = inr acc.
